@@ -202,7 +202,12 @@ func genCase(t *rapid.T, thorough bool) Case {
 			o.Lens, o.LenVals, o.Sups = gen.All, gen.Dyadic, gen.None
 		}
 		c.GotreeDoc = c.Format != "nextstrain" && rapid.Bool().Draw(t, "gotreedoc")
-		c.NexusOpts = docs.NexusOpts{Translate: rapid.Bool().Draw(t, "tr"), Taxa: rapid.Bool().Draw(t, "taxa"), Comments: rapid.Bool().Draw(t, "com"), Lower: rapid.Bool().Draw(t, "lower")}
+		c.NexusOpts = docs.NexusOpts{Translate: rapid.Bool().Draw(t, "tr"), Taxa: rapid.Bool().Draw(t, "taxa"), Comments: rapid.Bool().Draw(t, "com"), Lower: rapid.Bool().Draw(t, "lower"), InlineEnd: rapid.Bool().Draw(t, "inlineend")}
+	}
+	if c.Chain == "nexus-phyloxml" {
+		// the independent Nexus document ends its TRANSLATE command with ';' on a line of its own or
+		// right after the last entry ("5 e;"), with or without a TAXA block
+		c.NexusOpts = docs.NexusOpts{Taxa: rapid.Bool().Draw(t, "taxa"), InlineEnd: rapid.Bool().Draw(t, "inlineend")}
 	}
 	base := gen.Tree(t, o)
 	n := rapid.IntRange(1, 5).Draw(t, "ntrees")
@@ -401,7 +406,7 @@ func check(c Case) error {
 		return nil
 	case "nexus-phyloxml":
 		// independent Nexus document -> gotree -> PhyloXML -> gotree -> Nexus -> gotree
-		doc := docs.Nexus(c.Trees, docs.NexusOpts{Translate: c.Translate, Taxa: true})
+		doc := docs.Nexus(c.Trees, docs.NexusOpts{Translate: c.Translate, Taxa: !c.NexusOpts.InlineEnd || c.NexusOpts.Taxa, InlineEnd: c.NexusOpts.InlineEnd})
 		a, err := readNexus(doc)
 		if err != nil {
 			return fmt.Errorf("valid Nexus document rejected: %v\n%s", err, doc)
